@@ -237,6 +237,13 @@ func runRest(c Case) (out Out) {
 	defer cancelParent()
 
 	script := c.Script
+	pre := c.D.Mode == "pre"
+	recvGate := func() hcmd {
+		if pre {
+			return hcmd{}
+		}
+		return <-gate
+	}
 	work := http.HandlerFunc(func(w http.ResponseWriter, r *http.Request) {
 		t1 = time.Now()
 		dlSeen, hasDl = r.Context().Deadline()
@@ -250,7 +257,7 @@ func runRest(c Case) (out Out) {
 			}
 		}()
 		for _, a := range script {
-			cmd := <-gate
+			cmd := recvGate()
 			if cmd.selfCancel {
 				cancelParent()
 				for j := 0; j < cmd.yield; j++ {
@@ -298,7 +305,7 @@ func runRest(c Case) (out Out) {
 			}
 		}
 	ret:
-		cmd := <-gate
+		cmd := recvGate()
 		if cmd.selfCancel {
 			cancelParent()
 			for j := 0; j < cmd.yield; j++ {
@@ -321,6 +328,11 @@ func runRest(c Case) (out Out) {
 		for _, v := range kv[1].([]any) {
 			rw.hdr.Add(hname(num(kv[0])), hval(num(v)))
 		}
+	}
+	if pre {
+		// the Done event precedes everything: ServeHTTP may enter its select with
+		// several cases ready (the handler runs ungated)
+		cancelParent()
 	}
 	sStarted := make(chan struct{})
 	go func() {
@@ -404,6 +416,53 @@ func runRest(c Case) (out Out) {
 		}
 	}
 
+	if pre {
+		emitD()
+		returned := sReturned(waitS)
+		var obs [][]any
+		firstRefused := -1
+		for !hEnded {
+			select {
+			case a := <-acks:
+				if a.wto && firstRefused < 0 {
+					firstRefused = len(obs)
+				}
+				obs = append(obs, a.obs)
+				hEnded = a.ended
+			case <-time.After(5 * time.Second):
+				out.Err = "handler stuck (ungated run)"
+				return
+			}
+		}
+		if !returned {
+			returned = sReturned(waitS)
+		}
+		timedOut := false
+		if returned && wrapped() && sPanic == nil {
+			rw.mu.Lock()
+			timedOut = rw.code == 499
+			rw.mu.Unlock()
+		}
+		for i, o := range obs {
+			if timedOut && i == firstRefused {
+				emit("St")
+				sSeen = true
+			}
+			emit("H")
+			out.HObs = append(out.HObs, o)
+		}
+		if returned && wrapped() && !sSeen {
+			switch {
+			case sPanic != nil:
+				emit("Sp")
+			case timedOut:
+				emit("St")
+			default:
+				emit("Sd")
+			}
+			sSeen = true
+		}
+	}
 	for i := 0; !hEnded; i++ {
 		self := false
 		if i == c.D.Pos {
